@@ -523,7 +523,7 @@ class FixedKeyUploadable(object):
 
 
 MUT_KINDS = ["flip", "field", "block", "cthash", "bhash", "schain_num", "schain_hash", "ueb_len", "ueb_field",
-             "truncate", "swap_file", "swap_enc", "swap_shnum", "delete", "flip_lease_area", "flip_unused"]
+             "truncate", "swap_file", "swap_enc", "swap_shnum", "delete", "flip_lease_area", "flip_unused", "forge_blocktree"]
 UEB_FIELDS = ["size", "segment_size", "num_segments", "needed_shares", "total_shares", "codec_params", "tail_codec_params",
               "crypttext_root_hash", "share_root_hash", "crypttext_hash"]
 
@@ -639,6 +639,29 @@ def mutate_share(raw, kind, p1, p2, ctx):
         ln = o["plaintext_hash_tree"] - o["data"]
         if ln:
             flip_at(o["data"] + p1 % ln)
+    elif kind == "forge_blocktree":
+        # adversary who knows the layout: alter one block and rebuild a self-consistent block hash tree,
+        # leaving the (genuine) share hash chain and UEB alone
+        o = p["offsets"]
+        try:
+            ueb = sharecheck.unpack_ueb(p["ueb"])
+            nseg_, bs_, sl_ = sharecheck.seg_geometry(ueb["size"], ueb["segment_size"], ueb["needed_shares"])
+        except Exception:
+            nseg_ = 0
+        if nseg_:
+            tgt = p1 % nseg_
+            blocks, off = [], o["data"]
+            for i in range(nseg_):
+                b = bytearray(sb[off:off + bs_[i]])
+                if i == tgt and b:
+                    b[p2 % len(b)] ^= 0x5a
+                    sb[off:off + bs_[i]] = b
+                blocks.append(bytes(b))
+                off += bs_[i]
+            tree = refhash.merkle_tree([refhash.block_hash(b) for b in blocks])
+            flat = b"".join(tree)
+            if len(flat) == o["share_hashes"] - o["block_hashes"]:
+                sb[o["block_hashes"]:o["share_hashes"]] = flat
     elif kind in ("cthash", "bhash"):
         o = p["offsets"]
         a, b = (o["crypttext_hash_tree"], o["block_hashes"]) if kind == "cthash" else (o["block_hashes"], o["share_hashes"])
@@ -1282,4 +1305,225 @@ def exec_upfault(case):
         return finish(g, viol, probes, case)
     finally:
         mon.close()
+        g.close()
+
+
+# ------------------------------------------------------------------------------------------
+# profile: checkrepair (C45)
+# ------------------------------------------------------------------------------------------
+def gen_checkrepair(seed, tier, focus="C45"):
+    case = gen_layout(seed, tier, "C45")
+    ch = Chooser(seed)
+    cfg = case["cfg"]
+    placement = cfg["placement"]
+    muts = []
+    nm = ch.randint("faults", "nmut45", 0, max(1, len(placement) // 2 + 1))
+    for j in range(nm):
+        sh, srv = ch.pick("faults", ("mtarget45", j), placement)
+        kind = ch.pick("faults", ("mkind45", j), MUT_KINDS)
+        muts.append([srv, sh, kind, ch.randrange("faults", ("mp1", j), 1 << 30), ch.randrange("faults", ("mp2", j), 1 << 30)])
+    case["muts"] = muts
+    case["faults"] = []
+    case["profile"] = "checkrepair"
+    case["ops"] = [["check", ch.chance("workload", "verify1", 0.6)], ["repair", ch.chance("workload", "verify2", 0.7)]]
+    cfg["badseg"] = None
+    return case
+
+
+def exec_checkrepair(case):
+    from sim.runner import child_tmp
+    from allmydata.monitor import Monitor
+    from allmydata import uri as uri_mod
+    cfg = case["cfg"]
+    base = tempfile.mkdtemp(dir=child_tmp())
+    R.reset_sim()
+    apply_knobs(cfg["knobs"])
+    viol, probes = [], {}
+
+    def probe(nm, c=1):
+        probes[nm] = probes.get(nm, 0) + c
+
+    def bad(clause, detail, sig=None):
+        viol.append({"clause": "C45.%s" % clause, "sig": sig or "C45.%s" % clause, "detail": detail})
+
+    k, n = cfg["k"], cfg["n"]
+    g = Grid(case["seed"], base, {"lat_profile": "fifo", "base_lat": 0.001})
+    try:
+        nsrv = max(n, cfg["nservers"])
+        for i in range(nsrv):
+            g.add_server()
+        up = g.add_client(k=k, happy=1, n=n, segsize=cfg["seg"], convergence=conv_secret("A"))
+        data = plaintext_of(case)
+        st, res = run(up.upload(Data(data, convergence=conv_secret("A"))))
+        if st != "ok":
+            return finish(g, [], {"setup-failed": 1}, case)
+        cap = res.get_uri()
+        capd = sharecheck.parse_chk_cap(cap)
+        si = refhash.storage_index_from_key(capd["key"])
+        originals = {}
+        for s in g.servers:
+            for shnum, raw in s.shares_of(si).items():
+                originals[shnum] = raw
+                os.unlink(s.share_path(si, shnum))
+        ctx_by_sh = {}
+        for shnum in originals:
+            ctx_by_sh.setdefault(shnum, {})["swap_shnum"] = originals.get((shnum + 1) % n)
+        if any(m[2] == "swap_file" for m in case["muts"]):
+            stB, resB = run(up.upload(Data(pat_bytes(cfg["datapat"] + 1, cfg["size"]), convergence=conv_secret("A"))))
+            if stB == "ok":
+                siB = refhash.storage_index_from_key(sharecheck.parse_chk_cap(resB.get_uri())["key"])
+                for s in g.servers:
+                    for shnum, raw in s.shares_of(siB).items():
+                        ctx_by_sh.setdefault(shnum, {})["swap_file"] = raw
+        servers = g.servers[:cfg["nservers"]]
+        for (shnum, srv) in cfg["placement"]:
+            if shnum in originals:
+                p = servers[srv].share_path(si, shnum)
+                os.makedirs(os.path.dirname(p), exist_ok=True)
+                with open(p, "wb") as f:
+                    f.write(originals[shnum])
+        for (srv, shnum, kind, p1, p2) in case["muts"]:
+            if srv >= len(servers):
+                continue
+            p = servers[srv].share_path(si, shnum)
+            if not os.path.exists(p):
+                continue
+            with open(p, "rb") as f:
+                raw = f.read()
+            try:
+                new = mutate_share(raw, kind, p1, p2, ctx_by_sh.get(shnum, {}))
+            except sharecheck.Bad:
+                new = raw
+            if new is None:
+                os.unlink(p)
+            else:
+                with open(p, "wb") as f:
+                    f.write(new)
+            probe("mut-" + kind)
+        g.net.profile = cfg["net"]["lat_profile"]
+        g.net.jitter = cfg["net"]["jitter"]
+        # the checking/repairing client knows only the verify-cap; it is connected to the layout servers
+        # plus the spare servers (repair needs somewhere to put new shares)
+        ck = g.add_client(k=k, happy=1, n=n, segsize=cfg["seg"], connect=False)
+        for s in g.servers:
+            g.connect(ck, s)
+        vcap = uri_mod.from_string(cap).get_verify_cap().to_string()
+        vnode = ck.create_node_from_uri(vcap)
+        sid2name = {s.serverid: s.name for s in g.servers}
+        valid_where, pieces = sharecheck.good_shares_on_disk(g.servers, si, capd)
+        lenient_where, _lp = sharecheck.good_shares_on_disk(g.servers, si, capd, lenient_ueb=True)
+        present, identical_where = {}, {}
+        for s in g.servers:
+            for shnum, raw in s.shares_of(si).items():
+                present.setdefault(shnum, set()).add(s.name)
+                try:
+                    if shnum in originals and sharecheck.split_container(raw)[1] == sharecheck.split_container(originals[shnum])[1]:
+                        identical_where.setdefault(shnum, set()).add(s.name)
+                except sharecheck.Bad:
+                    pass
+        before_files = {(s.name, shnum): raw for s in g.servers for shnum, raw in s.shares_of(si).items()}
+        # ---- check
+        verify = case["ops"][0][1]
+        stc, cr = run(vnode.check(Monitor(), verify=verify))
+        if stc != "ok":
+            bad("check-failed", "check(verify=%s) %s: %s" % (verify, stc, cr.getTraceback()[-600:] if stc == "err" else ""),
+                sig="C45.check-failed." + (err_name(cr) if stc == "err" else "hung"))
+        else:
+            sm = {sh: set(sid2name.get(srv.get_serverid()) for srv in srvs) for sh, srvs in cr.get_sharemap().items()}
+            sm = {sh: v for sh, v in sm.items() if v}
+            probe("check-verify" if verify else "check-noverify")
+            if verify:
+                # only-if direction: whatever is reported good must validate (leniently: a reader whose
+                # over-long UEB read is clipped); if direction: an untouched share must be reported good
+                extra = {sh: sorted(v - set(lenient_where.get(sh, ()))) for sh, v in sm.items() if v - set(lenient_where.get(sh, ()))}
+                miss = {sh: sorted(set(v) - sm.get(sh, set())) for sh, v in identical_where.items() if set(v) - sm.get(sh, set())}
+            else:
+                extra = {sh: sorted(v - set(present.get(sh, ()))) for sh, v in sm.items() if v - set(present.get(sh, ()))}
+                miss = {sh: sorted(set(v) - sm.get(sh, set())) for sh, v in present.items() if set(v) - sm.get(sh, set())}
+            if extra:
+                bad("bad-share-reported-good", "check(verify=%s) lists as good shares that do not validate independently: %r (muts=%r)" % (verify, extra, case["muts"]))
+            if miss:
+                bad("good-share-not-reported", "check(verify=%s) does not list untouched shares: %r (muts=%r)" % (verify, miss, case["muts"]))
+            ngood = len(sm)
+            if cr.is_healthy() != (ngood >= n):
+                bad("healthy", "is_healthy()=%s but the check found %d distinct good shares of N=%d (verify=%s)" % (cr.is_healthy(), ngood, n, verify))
+            if cr.is_recoverable() != (ngood >= k):
+                bad("recoverable", "is_recoverable()=%s but the check found %d distinct good shares, k=%d (verify=%s)" % (cr.is_recoverable(), ngood, k, verify))
+            if cr.is_healthy() and len(lenient_where if verify else present) < n:
+                bad("healthy-but-missing", "reported healthy although ground truth has only %d distinct good shares" % len(lenient_where if verify else present))
+        # ---- repair through the verify-cap only
+        verify2 = case["ops"][1][1]
+        vnode2 = ck.create_node_from_uri(vcap)
+        str_, crr = run(vnode2.check_and_repair(Monitor(), verify=verify2))
+        truth2 = lenient_where if verify2 else present
+        after_files = {(s.name, shnum): raw for s in g.servers for shnum, raw in s.shares_of(si).items()}
+        # existing good shares must not be altered (share bytes; leases may be added)
+        for (nm_, shnum), raw in before_files.items():
+            if nm_ in valid_where.get(shnum, ()):
+                new = after_files.get((nm_, shnum))
+                if new is None:
+                    bad("good-share-removed", "repair removed good share %d on %s" % (shnum, nm_))
+                else:
+                    try:
+                        if sharecheck.split_container(new)[1] != sharecheck.split_container(raw)[1]:
+                            bad("good-share-altered", "repair altered the bytes of good share %d on %s" % (shnum, nm_))
+                    except sharecheck.Bad:
+                        bad("good-share-altered", "repair left good share %d on %s unparseable" % (shnum, nm_))
+        newfiles = {kx: v for kx, v in after_files.items() if kx not in before_files}
+        if str_ == "ok":
+            if crr.get_repair_attempted():
+                probe("repair-attempted")
+                if crr.get_repair_successful():
+                    probe("repair-successful")
+                    # every new share validates under the original cap; the file is readable from new shares alone
+                    new_valid = {}
+                    for (nm_, shnum), raw in newfiles.items():
+                        try:
+                            v = sharecheck.validate_share(sharecheck.split_container(raw)[1], shnum, capd)
+                            new_valid[shnum] = v
+                        except (sharecheck.Bad, Exception) as e:
+                            bad("repaired-share-invalid", "share %d written by repair on %s does not validate under the original cap: %r" % (shnum, nm_, e))
+                    where2, _p2 = sharecheck.good_shares_on_disk(g.servers, si, capd, lenient_ueb=bool(verify2))
+                    if not verify2:
+                        where2 = {}
+                        for s_ in g.servers:
+                            for shn_ in s_.shares_of(si):
+                                where2.setdefault(shn_, set()).add(s_.name)
+                    if len(where2) < n:
+                        bad("repair-not-healthy", "repair reported success but only %d distinct valid shares are on disk (N=%d)" % (len(where2), n))
+                    if len(new_valid) >= k:
+                        try:
+                            if sharecheck.decode(new_valid, capd, capd["key"]) != data:
+                                bad("repaired-decode", "the shares written by repair decode to different bytes")
+                            probe("decoded-from-new-shares-alone")
+                        except sharecheck.Bad as e:
+                            bad("repaired-decode", "the shares written by repair do not decode: %s" % e)
+                        # and through the production reader with every old share removed
+                        for (nm_, shnum) in before_files:
+                            p = g.server_by_name(nm_).share_path(si, shnum)
+                            if (nm_, shnum) not in newfiles and os.path.exists(p):
+                                os.unlink(p)
+                        rd = g.add_client(k=3, happy=1, n=10)
+                        cons = CheckingConsumer("post-repair", data, 0)
+                        st3, r3 = run(rd.create_node_from_uri(cap).read(cons))
+                        if st3 != "ok" or cons.data() != data or cons.wrong is not None:
+                            bad("read-from-repaired", "reading with the original read-cap from the repaired shares alone: %s" % (
+                                st3 if st3 != "err" else err_name(r3)))
+                else:
+                    probe("repair-unsuccessful")
+                    if len(truth2) >= k and len(g.servers) >= n:
+                        probe("repair-unsuccessful-though-recoverable")
+            else:
+                probe("repair-not-needed")
+                if len(truth2) < n:
+                    bad("repair-skipped", "no repair attempted although only %d distinct good shares (N=%d, verify=%s)" % (len(truth2), n, verify2))
+        elif str_ == "err":
+            probe("repair-err-" + err_name(crr))
+            if len(identical_where) >= k and verify2:
+                bad("repair-failed", "check_and_repair failed with %s although %d valid shares (k=%d) exist: %s" % (
+                    err_name(crr), len(valid_where), k, crr.getErrorMessage()[:300]), sig="C45.repair-failed." + err_name(crr))
+        else:
+            bad("repair-hung", "check_and_repair never completed")
+        return finish(g, viol, probes, case)
+    finally:
         g.close()
